@@ -25,3 +25,9 @@ Inductive init :=
 
 Definition sem_eqb (a b : sem) : bool := match a, b with SemEmpty, SemEmpty | SemUsed, SemUsed => true | _, _ => false end.
 Definition mtx_eqb (a b : mtx) : bool := match a, b with MtxProduce, MtxProduce | MtxConsume, MtxConsume => true | _, _ => false end.
+
+(* what util::WaitSemaphore does when the blocking Semaphore::wait() is interrupted by a signal (EINTR) *)
+Inductive eintr_action :=
+| EintrRetry                 (* while (1) { try { wait(); break; } catch (EINTR) {} }: wait again *)
+| EintrReturnAsAcquired      (* returns to the caller as if a unit had been acquired *)
+| EintrOpaque.               (* a shape the extractor does not recognise *)
